@@ -285,7 +285,9 @@ class Facts:
         self.j = j
         self.path = path
         from . import inline as _inl
-        self.folded = _inl.fold_unknown_helpers(j, _inl.known_functions())
+        _kn = _inl.known_functions()
+        self.folded = _inl.fold_unknown_helpers(j, _kn)
+        self.folded += _inl.fold_unknown_async(j, _kn)
         self.nonce = j['nonce']
         self.crate = j['crate']
         self.types = j['types']
@@ -293,9 +295,16 @@ class Facts:
         self.fns = {f['path']: f for f in j['fns']}
         self.bodies = {}
         self.body_list = []
+        gone = set()
+        for (_c, h) in self.folded:
+            gone.add(h)
+            gone.add(h + '::{closure#0}')
+        self.folded_helpers = gone
         for b in j['bodies']:
             bo = Body(self, b)
             self.bodies[bo.path] = bo
+            if bo.path in gone and all(c != bo.path for (c, _h) in self.folded):
+                continue        # a helper folded into its callers: not scanned on its own (still reachable by path)
             self.body_list.append(bo)
         # trait impl table: (trait path, self type id) -> {method name: def path}
         self.impls = []
